@@ -798,7 +798,7 @@ func runCorpus(f gallina.Flags, meta *gallina.Meta, cf *gallina.CaseFile, rg *ri
 	}
 	fx := []fixed{
 		{"corpus: one float series, 9 samples, 3 per chunk", 3, nine, []qparams{
-			{name: "split-three-frames", mint: 0, maxt: 100, ms: all, maxBytes: 1},
+			{name: "split-frames", mint: 0, maxt: 100, ms: all, maxBytes: 1},
 			{name: "split-untrimmed-range-inside", mint: 25, maxt: 75, ms: all, maxBytes: 1, untrimmed: true},
 			{name: "one-frame", mint: 0, maxt: 100, ms: all, maxBytes: 1 << 20},
 			{name: "limit-exact", mint: 0, maxt: 100, ms: all, maxBytes: 1 << 20, limit: 9},
@@ -807,8 +807,8 @@ func runCorpus(f gallina.Flags, meta *gallina.Meta, cf *gallina.CaseFile, rg *ri
 		{"corpus: float series with -0.0", 120, []pend{{l: lset, t: 1000, v: math.Copysign(0, -1)}, {l: lset, t: 2000, v: 0}}, []qparams{
 			{name: "negative-zero", mint: 0, maxt: 5000, ms: all, maxBytes: 1 << 20},
 		}},
-		{"corpus: sample at MaxInt64-1", 120, []pend{{l: lset, t: 1000, v: 1}, {l: lset, t: math.MaxInt64 - 1, v: 2}}, []qparams{
-			{name: "maxint64-minus-one", mint: 0, maxt: math.MaxInt64, ms: all, maxBytes: 1 << 20},
+		{"corpus: sample at MaxInt64", 120, []pend{{l: lset, t: 1000, v: 1}, {l: lset, t: math.MaxInt64, v: 2}}, []qparams{
+			{name: "maxint64", mint: 0, maxt: math.MaxInt64, ms: all, maxBytes: 1 << 20},
 		}},
 	}
 	for i, c := range fx {
